@@ -7,7 +7,7 @@ import vcheck
 meta = json.load(open(os.path.join(ROOT, "manifest_meta.json")))
 props = [json.loads(l) for l in open(os.path.join(ROOT, "properties.jsonl"))]
 claimed = [p for p in vcheck.all_props() if os.path.exists(os.path.join(ROOT, "coq", "theories", "Properties_%s.v" % p))
-           and p not in meta.get("unclaimed", {})]
+           and p in meta.get("claimed", [])]
 checks = []
 for pid in claimed:
     m = meta["checks"].get(pid, {})
